@@ -13,6 +13,10 @@ NAMES = ['cdilate', 'cerode', 'tophat_open', 'tophat_close', 'subm', 'open_u8', 
          'imresize', 'resize_to', 'spline_filter1d', 'shift_order1', 'moments', 'haralick_3d', 'lbp_transform',
          'erode_float_bc', 'dilate_float_bc', 'label_float_bc', 'cwatershed_bc', 'median_float_bc', 'rank_float_bc',
          'mean_filter_bc', 'locmax_float_bc', 'regmin_float_bc', 'close_holes_bc',
+         'erode_out', 'dilate_out', 'open_out', 'close_out', 'cerode_out', 'tophat_open_out', 'tophat_close_out', 'subm_out',
+         'convolve_out', 'convolve1d_out', 'gaussian_filter_out', 'median_filter_out', 'rank_filter_out', 'mean_filter_out',
+         'template_match_out', 'label_out', 'borders_out', 'hitmiss_out', 'majority_filter_out', 'regmax_out', 'locmin_out',
+         'zoom_out', 'shift_out', 'spline_filter_out',
          'stretch', 'stretch_rgb', 'rgb2xyz', 'rgb2lab', 'rgb2grey', 'rgb2sepia', 'xyz2rgb', 'as_rgb']
 
 
@@ -35,6 +39,36 @@ def register(reg, g, mh, np):
     reg('locmax_float_bc', ['f', 'bcf'], lambda I: mh.locmax(g(I, 'f'), g(I, 'bcf')))
     reg('regmin_float_bc', ['f', 'bcf'], lambda I: mh.regmin(g(I, 'f'), g(I, 'bcf')))
     reg('close_holes_bc', ['b', 'bcf'], lambda I: mh.close_holes(g(I, 'b'), g(I, 'bcf')))
+    # C09: the same functions with a caller-supplied, pre-dirtied out= buffer; the value is (result is out, content)
+    def _out(fn, a, *args, dtype=None, shape=None, **kw):
+        o = np.full(a.shape if shape is None else shape, 0x55 if (dtype or a.dtype) != bool else 1, dtype or a.dtype)
+        r = fn(a, *args, out=o, **kw)
+        return (r is o, o)
+    reg('erode_out', ['f'], lambda I: _out(mh.erode, g(I, 'f')))
+    reg('dilate_out', ['b'], lambda I: _out(mh.dilate, g(I, 'b')))
+    reg('open_out', ['f'], lambda I: _out(mh.open, g(I, 'f')))
+    reg('close_out', ['f'], lambda I: _out(mh.close, g(I, 'f')))
+    reg('cerode_out', ['f'], lambda I: _out(mh.cerode, g(I, 'f'), g(I, 'f') // 2))
+    reg('tophat_open_out', ['f'], lambda I: _out(mh.morph.tophat_open, g(I, 'f')))
+    reg('tophat_close_out', ['f'], lambda I: _out(mh.morph.tophat_close, g(I, 'f')))
+    reg('subm_out', ['f'], lambda I: _out(mh.morph.subm, g(I, 'f'), g(I, 'f')[::-1].copy()))
+    reg('convolve_out', ['fl', 'w3'], lambda I: _out(mh.convolve, g(I, 'fl'), g(I, 'w3')))
+    reg('convolve1d_out', ['fl', 'w1'], lambda I: _out(mh.convolve1d, g(I, 'fl'), g(I, 'w1'), 0))
+    reg('gaussian_filter_out', ['fl'], lambda I: _out(mh.gaussian_filter, g(I, 'fl'), 1.5))
+    reg('median_filter_out', ['f'], lambda I: _out(mh.median_filter, g(I, 'f')))
+    reg('rank_filter_out', ['f'], lambda I: _out(mh.rank_filter, g(I, 'f'), np.ones((3, 3), np.uint8), 3))
+    reg('mean_filter_out', ['f'], lambda I: _out(mh.mean_filter, g(I, 'f'), np.ones((3, 3)), dtype=np.float64))
+    reg('template_match_out', ['f', 'tmpl'], lambda I: _out(mh.template_match, g(I, 'f'), g(I, 'tmpl')))
+    reg('label_out', ['b'], lambda I: (lambda o: (mh.label(g(I, 'b'), out=o)[0] is o, o))(np.full(g(I, 'b').shape, 0x55, np.int32)))
+    reg('borders_out', ['lab'], lambda I: _out(mh.labeled.borders, g(I, 'lab'), dtype=bool))
+    reg('hitmiss_out', ['b8', 'hm'], lambda I: _out(mh.hitmiss, g(I, 'b8'), g(I, 'hm')))
+    reg('majority_filter_out', ['b'], lambda I: _out(mh.majority_filter, g(I, 'b'), 3))
+    reg('regmax_out', ['f'], lambda I: _out(mh.regmax, g(I, 'f'), dtype=bool))
+    reg('locmin_out', ['f'], lambda I: _out(mh.locmin, g(I, 'f'), dtype=bool))
+    reg('zoom_out', ['fl'], lambda I: _out(mh.interpolate.zoom, g(I, 'fl'), 1.5,
+                                           shape=tuple(int(round(1.5 * n)) for n in g(I, 'fl').shape)))
+    reg('shift_out', ['fl'], lambda I: _out(mh.interpolate.shift, g(I, 'fl'), [0.5, 1.25]))
+    reg('spline_filter_out', ['fl'], lambda I: _out(mh.interpolate.spline_filter, g(I, 'fl'), 3))
     # C02
     reg('cdilate', ['f'], lambda I: mh.cdilate(g(I, 'f') // 2, g(I, 'f'), None, 3))
     reg('cerode', ['f'], lambda I: mh.cerode(g(I, 'f'), g(I, 'f') // 2))
